@@ -289,7 +289,7 @@ pub fn gen_rvoice(rng: &mut Rng, max_delay: u32) -> RVoice {
     // one ring length for the whole voice: a function with a delay line that calls a function
     // with a delay line of another length runs over the VM's state storage on the pinned tree
     // (the same defect of plain execution as two lengths within one function)
-    let lens: Vec<u32> = [2u32, 3, 4, 7, 16].iter().copied().filter(|l| *l <= max_delay.max(2)).collect();
+    let lens: Vec<u32> = [2u32, 3, 4, 7, 16, 1024, 4800].iter().copied().filter(|l| *l <= max_delay.max(2)).collect();
     let voice_len = *g.rng.pick(&lens);
     for k in 0..nf {
         let mut fb = FnBuild { n_mems: 0, n_dlys: 0, calls: vec![], dly_len: voice_len };
